@@ -438,3 +438,41 @@ Definition check_case (c : ccase) : bool :=
       list_eqb (outcome_eqb (list_eqb N.eqb)) mr reads && list_eqb N.eqb (r_rb st') lft
         && (s_pos (r_src st') =? pos) && (s_used (r_src st') =? u)
   end.
+
+(* ------------------------------------------------------------------ property-side definitions *)
+(** PS3.8 9.3.5: a P-DATA-TF PDU carrying ONE presentation data value with the
+    data-set (not command) flag; [last] is bit 1 of the message control header. *)
+Definition enc_pdu (ctx : N) (p : bytes * bool) : bytes :=
+  [4; 0] ++ be32 (len (fst p) + 6) ++ be32 (len (fst p) + 2) ++ [ctx; if snd p then 2 else 0] ++ fst p.
+Definition enc_all (ctx : N) (ps : list (bytes * bool)) : bytes := concat (map (enc_pdu ctx) ps).
+
+(** the value of the PDU-length field of [enc_pdu] *)
+Definition pdu_length (p : bytes * bool) : N := len (fst p) + 6.
+
+(** abstract fragmentation: pieces of [cap] bytes, all but the final one full
+    and not last; the final piece holds the remaining 0 < n <= cap bytes (or is
+    empty for the empty message) and is the only one marked last. *)
+Fixpoint frag (fuel : nat) (cap : N) (p : bytes) : list (bytes * bool) :=
+  match fuel with
+  | O => [(p, true)]
+  | S f => if len p <=? cap then [(p, true)] else (take cap p, false) :: frag f cap (drop cap p)
+  end.
+Definition fragments (cap : N) (p : bytes) : list (bytes * bool) := frag (length p) cap p.
+
+(** only the final element is marked last *)
+Fixpoint only_last_is_last (ps : list (bytes * bool)) : Prop :=
+  match ps with
+  | [] => False
+  | [p] => snd p = true
+  | p :: ps' => snd p = false /\ only_last_is_last ps'
+  end.
+
+(** fault-free schedule: partial writes and not-ready results only *)
+Definition no_fault (s : list ev) : Prop := Forall (fun e => e <> Fail /\ e <> Rdy 0) s.
+
+Definition all_ok (n : nat) : list (outcome unit) := repeat (Ok tt) n.
+
+(** data returned by a sequence of reads *)
+Definition read_data (rs : list (outcome bytes)) : bytes :=
+  concat (map (fun r => match r with Ok b => b | _ => [] end) rs).
+Definition valid_max (max : N) : Prop := MINIMUM_PDU_SIZE <= max <= MAXIMUM_PDU_SIZE.
